@@ -596,6 +596,9 @@ def spec_c11(tier, seed):
                 parts.append({'role': role, 'own': own, 'inb': inb, 'mode': mode, 'raising': False, 'frag_tail': True})
         for mode in ((1,) if q else (0, 1, 2, 3)):
             parts.append({'role': role, 'own': ['rr', 'rs'], 'inb': ['rs', 'rr'], 'mode': mode, 'raising': True, 'frag_tail': True})
+        for oc in (1, 2):
+            for mode in ((0,) if q else (0, 1)):
+                parts.append({'role': role, 'own': ['rr', 'ch'], 'inb': ['rr', 'rs'], 'mode': mode, 'raising': False, 'frag_tail': False, 'on_close': oc})
     return dict(
         conds=[Cond('c11_connection_loss', 'c_cut', parts=parts, timeout=600),
                Cond('c11_connection_loss', 'w_cut_inside_fragmented_frame', timeout=120)],
@@ -685,6 +688,7 @@ def spec_c17(tier, seed):
     for cause in range(4):
         parts.append({'cause': cause, 'rounds': 1})
         parts.append({'cause': cause, 'rounds': 1, 'close_raises': True})
+        parts.append({'cause': cause, 'rounds': 1, 'suspend_connect': True})
         if cause in (0, 1):
             parts.append({'cause': cause, 'rounds': 1, 'from_on_close': True})
             parts.append({'cause': cause, 'rounds': 2, 'from_on_close': True, 'pend': [True, True, 0], 'idle_max': 1100000})
